@@ -66,6 +66,16 @@ ExpectedGroupTable(S) ==
   { [ no |-> g, bs |-> LET rs == SelectSeq(Resources(S), LAMBDA r : r.group = g) IN [ j \in DOMAIN rs |-> rs[j].binding ] ] : g \in GroupStrs(S) }
 ObservedGroupTable(o) ==
   { [ no |-> G.no, bs |-> IF Has(G, "entries") THEN [ j \in DOMAIN G.entries |-> G.entries[j].binding ] ELSE << "missing" >> ] : G \in Range(o.out.groups) }
+(* the bind group a host program builds: every variable supplies exactly the entry with its own @binding, in its own group *)
+ExpectedSupply(S) == { << r.group, r.binding, r.name >> : r \in Range(Resources(S)) }
+ObservedSupply(o) ==
+  UNION { IF Has(G, "from_bindings") /\ Has(G.from_bindings, "entries")
+          THEN { << G.no, e.binding, IF Has(e, "field") THEN e.field ELSE "?" >> : e \in Range(G.from_bindings.entries) }
+          ELSE { << G.no, "missing", "?" >> } : G \in Range(o.out.groups) }
+SupplyCount(o) == LET gs == SelectSeq(o.out.groups, LAMBDA G : Has(G, "from_bindings") /\ Has(G.from_bindings, "entries"))
+                      RECURSIVE Sum(_)
+                      Sum(i) == IF i > Len(gs) THEN 0 ELSE Len(gs[i].from_bindings.entries) + Sum(i + 1)
+                  IN Sum(1)
 C11(c, o) ==
   IF ~(HasS(c) /\ ParseOk(o)) THEN NoVerdict ELSE
   LET S == c.S
@@ -78,6 +88,8 @@ C11(c, o) ==
             \cup (IF res.kind = "ok" /\ Has(o, "out")
                   THEN Chk(ObservedGroupTable(o) = ExpectedGroupTable(S) /\ Len(o.out.groups) = Cardinality(GroupStrs(S)),
                            "emitted groups " \o ToJson(ObservedGroupTable(o)) \o " differ from declared " \o ToJson(ExpectedGroupTable(S)))
+                       \cup Chk(ObservedSupply(o) = ExpectedSupply(S) /\ SupplyCount(o) = Len(Resources(S)),
+                                "bind group entries built by from_bindings " \o ToJson(ObservedSupply(o)) \o " differ from the declared (group, binding, variable) triples " \o ToJson(ExpectedSupply(S)))
                   ELSE {}) ]
 
 (* ------------------------------------------------------------------ C03 *)
